@@ -46,3 +46,467 @@ def repeat_seq(ip, s, seq, n):
     s.assume(T("(forall ((%s Int)) (! (=> (and (<= 0 %s) (< %s %s)) (= %s %s)) :pattern (%s)))" % (
         q.s, q.s, q.s, length.s, ip.reg.l_get(t, q).s, elem_term(ip, s, x, el).s, ip.reg.l_get(t, q).s), "Bool"))
     return ip.new_cell(s, LstCell(t))
+
+
+# --------------------------------------------------------------------------- allocation of abstract objects
+# copy.deepcopy(x) of an abstract element x (sort Obj) creates a NEW object.  Ghost allocation clock: every allocation
+# takes the current clock value k as its stamp and advances the clock; the new object c is a fresh constant with
+#   born(c) = k        : allocation stamp
+#   is_dcopy(c)        : made by copy.deepcopy
+#   dcopy_src(c) = x   : the object it was copied from
+# Everything reachable from the parameters at function entry was allocated before the entry: born < clock0.  Hence a
+# deep copy made during the call differs from every object that existed before and from every other copy (distinct
+# stamps).  The copy's behaviour/state is not constrained here (nothing is assumed about it).
+def alloc_decls(ip):
+    reg = ip.reg
+    reg.need("Obj")
+    reg.ufun("born", ["Obj"], "Int")
+    reg.ufun("is_dcopy", ["Obj"], "Bool")
+    reg.ufun("dcopy_src", ["Obj"], "Obj")
+
+
+def copy_facts(c, v, k):
+    """c is the object made by copy.deepcopy(v) at clock value k"""
+    return "(and (= (born %s) %s) (is_dcopy %s) (= (dcopy_src %s) %s))" % (c, k, c, c, v)
+
+
+def clock0(ip):
+    c = getattr(ip, "_clock0", None)
+    if c is None:
+        alloc_decls(ip)
+        c = ip._clock0 = ip.reg.new("clock0", "Int")
+    return c
+
+
+def clock(ip, st):
+    c0 = clock0(ip)
+    return st.notes.get("$clock", c0)
+
+
+def call_start_clock(ip, st):
+    """clock value when the call the clause belongs to started: the pre-state of a two-state clause (function entry for
+    the function under verification, the call site's pre-state for a callee's clause)"""
+    o = ip.oldst
+    return clock(ip, o) if o is not None else clock0(ip)
+
+
+def born(ip, t):
+    alloc_decls(ip)
+    return T("(born %s)" % t.s, "Int")
+
+
+def assume_existing(ip, st):
+    """everything reachable from the parameters at entry was allocated before the entry (a true fact, added on demand)"""
+    if st.notes.get("$alloc_init"):
+        return
+    st.notes["$alloc_init"] = True
+    c0 = clock0(ip)
+    entry = ip.entry
+    if entry is None:
+        return
+    reg = ip.reg
+    seen = set()
+    todo = list(entry.env.values())
+    while todo:
+        v = todo.pop()
+        if isinstance(v, Opaque) and v.sort == "Obj":
+            st.assume(CMP("<", born(ip, v.t), c0))
+        elif isinstance(v, Tup):
+            todo += v.items
+        elif isinstance(v, Fun) and getattr(v, "obj", None) is not None:
+            todo.append(v.obj)
+        elif isinstance(v, Ref) and v.cid not in seen:
+            seen.add(v.cid)
+            cell = entry.heap.get(v.cid)
+            if isinstance(cell, ObjCell):
+                todo += list(cell.fields.values())
+            elif isinstance(cell, PyListCell):
+                todo += cell.items
+            elif isinstance(cell, LstCell):
+                t, binders = cell.term, []
+                while reg.is_lst(t.sort):
+                    b = "al%d" % next(ip.bound)
+                    binders.append(b)
+                    t = reg.l_get(t, T(b, "Int"))
+                if t.sort == "Obj" and binders:
+                    st.assume(T("(forall (%s) (! (< %s %s) :pattern (%s)))" % (
+                        " ".join("(%s Int)" % b for b in binders), born(ip, t).s, c0.s, t.s), "Bool"))
+
+
+def alloc_copy(ip, st, v):
+    """copy.deepcopy of one abstract object"""
+    assume_existing(ip, st)
+    k = clock(ip, st)
+    st.notes["$clock"] = ADD(k, I(1))
+    c = ip.reg.new("copy", "Obj")
+    st.assume(T(copy_facts(c.s, v.t.s, k.s), "Bool"))
+    return Opaque(c)
+
+
+def call_advances_clock(ip, st):
+    """a callee that may allocate (contract ghost={"alloc": True}): the clock after the call is some value >= before"""
+    assume_existing(ip, st)
+    k = clock(ip, st)
+    nk = ip.reg.new("clock", "Int")
+    st.assume(CMP(">=", nk, k))
+    st.notes["$clock"] = nk
+
+
+def _names_in(node):
+    return {n.id for n in ast.walk(node) if isinstance(n, ast.Name)}
+
+
+def alloc_comprehension(ip, e, st):
+    """`[copy.deepcopy(x) for _ in <sequence of symbolic length>]` with x an abstract object: n NEW objects with
+    consecutive stamps.  Returns the new list (a Ref) or None when the comprehension is not of this form."""
+    if len(e.generators) != 1 or e.generators[0].ifs or not isinstance(e.elt, ast.Call):
+        return None
+    g = e.generators[0]
+    call = e.elt
+    if len(call.args) != 1 or call.keywords or isinstance(call.args[0], ast.Starred):
+        return None
+    try:
+        ip.spec_mode += 1
+        try:
+            f = ip.ev1(call.func, st)
+        finally:
+            ip.spec_mode -= 1
+    except Exception:
+        return None
+    from .lib import lib_deepcopy
+    if not (isinstance(f, Fun) and f.kind == "lib" and f.impl is lib_deepcopy):
+        return None
+    bound = _names_in(g.target)
+    if bound & _names_in(call.args[0]):
+        return None
+    src = ip.as_view(st, ip.ev1(g.iter, st))
+    if src.items is not None:
+        return None                     # concrete length: the generic path evaluates every item in the real state
+    v = ip.ev1(call.args[0], st)
+    if isinstance(v, (Num, Bool, NoneV, Str)):
+        return None                     # immutable: deepcopy is the identity, the generic (pure) path is exact
+    if not (isinstance(v, Opaque) and v.sort == "Obj"):
+        raise U("copy.deepcopy of a mutable value inside a comprehension of symbolic length")
+    assume_existing(ip, st)
+    reg = ip.reg
+    sort = reg.lst("Obj")
+    n = src.len
+    k0 = clock(ip, st)
+    t = reg.new("copies", sort)
+    st.assume(EQ(reg.l_len(t), n))
+    q = T("q%d" % next(ip.bound), "Int")
+    st.assume(T("(forall ((%s Int)) (! (=> (and (<= 0 %s) (< %s %s)) %s) :pattern (%s)))" % (
+        q.s, q.s, q.s, n.s, copy_facts(reg.l_get(t, q).s, v.t.s, "(+ %s %s)" % (k0.s, q.s)), reg.l_get(t, q).s), "Bool"))
+    st.notes["$clock"] = ADD(k0, n)
+    ip.assumptions.add("library contract (tier A): copy.deepcopy of an element creates a new object (ghost allocation clock)")
+    return ip.new_cell(st, LstCell(t))
+
+
+# ---- contract language: born(x), clock(), copy_of(c, x), new_object(c)
+def sp_born(ip, st, pos, kws):
+    v = pos[0]
+    if not (isinstance(v, Opaque) and v.sort == "Obj"):
+        raise U("born() of %r" % (v,))
+    assume_existing(ip, st)
+    return Num(born(ip, v.t))
+
+
+def sp_clock(ip, st, pos, kws):
+    assume_existing(ip, st)
+    return Num(clock(ip, st))
+
+
+def sp_copy_of(ip, st, pos, kws):
+    """copy_of(c, x): c was made by copy.deepcopy(x)"""
+    c, x = pos
+    if not (isinstance(c, Opaque) and c.sort == "Obj" and isinstance(x, Opaque) and x.sort == "Obj"):
+        raise U("copy_of(%r, %r)" % (c, x))
+    alloc_decls(ip)
+    return Bool(AND(T("(is_dcopy %s)" % c.t.s, "Bool"), EQ(T("(dcopy_src %s)" % c.t.s, "Obj"), x.t)))
+
+
+def sp_new_object(ip, st, pos, kws):
+    """new_object(c): c was allocated during this call (so it is none of the objects that existed at entry)"""
+    c = pos[0]
+    if not (isinstance(c, Opaque) and c.sort == "Obj"):
+        raise U("new_object(%r)" % (c,))
+    assume_existing(ip, st)
+    return Bool(CMP(">=", born(ip, c.t), call_start_clock(ip, st)))
+
+
+def obj_is_deep_copy(ip, st, v):
+    """is_deep_copy(x) for an abstract object: made by copy.deepcopy during this call"""
+    assume_existing(ip, st)
+    return AND(T("(is_dcopy %s)" % v.t.s, "Bool"), CMP(">=", born(ip, v.t), call_start_clock(ip, st)))
+
+
+def register(ix):
+    ix.lib.update(LIB)
+    for name, fn in [("born", sp_born), ("clock", sp_clock), ("copy_of", sp_copy_of), ("new_object", sp_new_object),
+                     ("lsum", sp_lsum)]:
+        ix.spec_names[name] = fn
+
+
+# --------------------------------------------------------------------------- generators that yield tuples
+# yields="Tuple[Tuple[Int],Real]": the ghost list `out` of yielded values is kept as one list term per leaf of the tuple
+# shape (all of the same length); out[k] is the tuple rebuilt from the k-th entries.
+class StructLstCell(object):
+    """list of tuples of a fixed shape: shape = ("tuple", [shapes]) | ("leaf", sort); comps = Lst terms of the leaves"""
+
+    def __init__(self, shape, comps):
+        self.shape, self.comps = shape, list(comps)
+
+
+def is_struct_type(ty):
+    return ty.strip().startswith("Tuple[")
+
+
+def parse_shape(ip, ty):
+    from .interp import parse_type
+    head, args = parse_type(ty)
+    if head == "Tuple":
+        return ("tuple", [parse_shape(ip, a) for a in args])
+    sort = ip.lst_sort(ty)           # registers Lst_<elem>; raises Unsupported for other types
+    return ("leaf", ip.reg.lst_elem[sort])
+
+
+def _leaves(shape):
+    if shape[0] == "leaf":
+        return [shape[1]]
+    out = []
+    for s in shape[1]:
+        out += _leaves(s)
+    return out
+
+
+def struct_new(ip, st, ty, name, empty=False):
+    shape = parse_shape(ip, ty)
+    leaves = _leaves(shape)
+    if not leaves:
+        raise U("generator yields tuples without any component: " + ty)
+    comps = []
+    for k, el in enumerate(leaves):
+        t = ip.reg.new("%s$%d" % (name, k), ip.reg.lst(el))
+        ip.assume_wf(st, t)
+        if empty:
+            st.assume(EQ(ip.reg.l_len(t), I(0)))
+        elif comps:
+            st.assume(EQ(ip.reg.l_len(t), ip.reg.l_len(comps[0])))
+        comps.append(t)
+    return StructLstCell(shape, comps)
+
+
+def struct_view(ip, cell):
+    reg = ip.reg
+
+    def build(shape, i, it):
+        if shape[0] == "leaf":
+            return ip.wrap(reg.l_get(next(it), i))
+        return Tup([build(s, i, it) for s in shape[1]])
+    return View(reg.l_len(cell.comps[0]), lambda i: build(cell.shape, i, iter(cell.comps)))
+
+
+def struct_append(ip, st, cell, v):
+    """the list extended by the tuple v (which must have the declared shape)"""
+    from .builtins_ import elem_term
+    reg = ip.reg
+    terms = []
+
+    def walk(shape, x):
+        if shape[0] == "leaf":
+            terms.append(elem_term(ip, st, x, shape[1]))
+            return
+        view = ip.as_view(st, x) if not isinstance(x, Tup) else None
+        items = x.items if isinstance(x, Tup) else view.items
+        if items is None or len(items) != len(shape[1]) or not (isinstance(x, Tup) or ip.kind_of_seq(st, x) == "tuple"):
+            raise U("yielded value %r does not have the declared tuple shape" % (x,))
+        for s, y in zip(shape[1], items):
+            walk(s, y)
+    walk(cell.shape, v)
+    return StructLstCell(cell.shape, [reg.l_append(t, x) for t, x in zip(cell.comps, terms)])
+
+
+def struct_havoc(ip, st, cell, name):
+    """fresh content of the same shape (loop head)"""
+    comps = []
+    for k, t0 in enumerate(cell.comps):
+        t = ip.reg.new("%s$%d" % (name, k), t0.sort)
+        ip.assume_wf(st, t)
+        if comps:
+            st.assume(EQ(ip.reg.l_len(t), ip.reg.l_len(comps[0])))
+        comps.append(t)
+    return StructLstCell(cell.shape, comps)
+
+
+# --------------------------------------------------------------------------- library functions (tier A)
+def _binop_lib(opcls):
+    def impl(ip, st, pos, kws):
+        if len(pos) != 2 or kws:
+            raise U("operator function with other than two positional arguments")
+        return ip.binop(opcls(), pos[0], pos[1], st)
+    return impl
+
+
+def lib_reduce(ip, st, pos, kws):
+    """functools.reduce(f, seq[, initial]) over a sequence of concrete length: the left fold"""
+    from .builtins_ import consume_view
+    from .calls import call_value
+    if kws or len(pos) not in (2, 3):
+        raise U("functools.reduce call form")
+    f = pos[0]
+    view = consume_view(ip, st, pos[1])
+    if view.items is None:
+        raise U("functools.reduce over a sequence of symbolic length")
+    items = list(view.items)
+    if len(pos) == 3:
+        acc0 = pos[2]
+    elif items:
+        acc0, items = items[0], items[1:]
+    else:
+        if ip.may_catch(st, "TypeError"):
+            ip.raise_(st, "TypeError")
+        else:
+            ip.emit("safety", "reduce-of-nonempty", st, FALSE)
+        return []
+    outs = [(st, acc0)]
+    for x in items:
+        nxt = []
+        for s, acc in outs:
+            nxt += call_value(ip, s, f, [acc, x], {})
+        outs = nxt
+    return outs
+
+
+def lib_histcell(ip, st, pos, kws):
+    """HistCell(edges, bin, index): a namedtuple -- modelled as the plain 3-tuple it is"""
+    names = ["edges", "bin", "index"]
+    vals = list(pos)
+    for n in names[len(vals):]:
+        if n not in kws:
+            raise U("HistCell(): missing field " + n)
+        vals.append(kws[n])
+    if len(vals) != 3 or any(k not in names for k in kws):
+        raise U("HistCell() call form")
+    return [(st, Tup(vals))]
+
+
+LIB = {("operator", "mul"): _binop_lib(ast.Mult), ("operator", "add"): _binop_lib(ast.Add),
+       ("operator", "sub"): _binop_lib(ast.Sub), ("functools", "reduce"): lib_reduce, "HistCell": lib_histcell}
+
+
+# --------------------------------------------------------------------------- items of a symbolic comprehension
+def freeze_new(ip, base, s2, r):
+    """an item of a comprehension of symbolic length was computed in the throw-away state s2 (a copy of `base`): a list
+    it CREATED there (a cell that does not exist in `base`) is handed on as an immutable snapshot of its items.  Sound:
+    a later store into it or an identity test on it is out-of-subset (Views support neither)."""
+    if isinstance(r, Tup):
+        return Tup([freeze_new(ip, base, s2, x) for x in r.items])
+    if isinstance(r, Ref) and r.cid not in base.heap:
+        cell = s2.heap.get(r.cid)
+        if isinstance(cell, PyListCell) and not r.path:
+            v = ip.items_view([freeze_new(ip, base, s2, x) for x in cell.items])
+            v.pykind = "list"
+            return v
+        if isinstance(cell, LstCell):
+            v = ip.lst_view(ip.deref(s2, r))
+            v.pykind = "list"
+            return v
+        raise U("item of a comprehension of symbolic length creates a %s" % type(cell).__name__)
+    return r
+
+
+# --------------------------------------------------------------------------- generator contracts with a defined output
+def defined_out_view(ip, st, case, env):
+    """Contract(out_def=(len_expr, var, item_expr)): the values the generator delivers are GIVEN by the contract
+    (len(out) == len_expr and out[k] == item_expr for every k -- the contract must state exactly these two clauses as
+    ensures, which is what the generator is verified against).  At a call site the iterator's content is then this
+    function of the arguments itself rather than an unknown list constrained by the clauses."""
+    from .calls import spec_state
+    len_expr, var, item_expr = case.out_def
+    need = ["len(out) == %s" % len_expr, "all(out[%s] == %s for %s in range(len(out)))" % (var, item_expr, var)]
+    have = [c.replace(" ", "") for c in case.ensures]
+    for n in need:
+        if n.replace(" ", "") not in have:
+            raise U("out_def of %s is not backed by the ensures clause `%s`" % (case.name, n))
+    ip.spec_mode += 1
+    try:
+        n = ip.num(ip.ev1(ip.contracts_parse(len_expr), spec_state(st, dict(env))))
+    finally:
+        ip.spec_mode -= 1
+    snap = st.copy()
+    node = ip.contracts_parse(item_expr)
+
+    def get(i):
+        e2 = dict(env)
+        e2[var] = Num(i)
+        ip.spec_mode += 1
+        try:
+            return ip.ev1(node, spec_state(snap, e2))
+        finally:
+            ip.spec_mode -= 1
+    if lit_int(n) is not None:
+        length = I(max(lit_int(n), 0))
+    elif n.s.startswith("(len_Lst_"):
+        length = n                        # the length of a list: non-negative (well-formedness of list terms)
+    else:
+        length = ITE(CMP("<", n, I(0)), I(0), n)
+    v = View(length, get)
+    v.guard_len = n
+    return v
+
+
+# --------------------------------------------------------------------------- sum(...) of a sequence of symbolic length
+def declare_lsum(reg, sort):
+    el = reg.lst_elem[sort]
+    zero = "0.0" if el == "Real" else "0"
+    name = "lsum_" + el
+    reg.fun_decl(name, "(define-fun-rec %s ((xs %s) (n Int)) %s (ite (<= n 0) %s (+ (%s xs (- n 1)) (select (arr_%s xs) (- n 1)))))"
+                 % (name, sort, el, zero, name, sort))
+    return name
+
+
+def whole_list_term(ip, view):
+    """the list term X when the view is syntactically `X[0], X[1], ... X[len(X)-1]` (else None)"""
+    import re
+    q = T("wl%d" % next(ip.bound), "Int")
+    try:
+        x = view.get(q)
+    except Exception:
+        return None
+    if not isinstance(x, Num):
+        return None
+    m = re.match(r"^\(select \(arr_(Lst_[A-Za-z0-9_]+) (.+)\) %s\)$" % re.escape(q.s), x.t.s)
+    if not m or m.group(1) not in ip.reg.lst_elem or q.s in m.group(2):
+        return None
+    X = T(m.group(2), m.group(1))
+    L = ip.reg.l_len(X)
+    if view.len.s in (L.s, ITE(CMP("<", L, I(0)), I(0), L).s):
+        return X
+    return None
+
+
+def sum_symbolic(ip, st, view, start):
+    """builtin sum over a sequence of numbers of symbolic length: the left fold of + (over the mathematical numbers),
+    start + lsum(xs, len(xs))"""
+    from .calls import materialise
+    from .builtins_ import sv_lst_sort
+    X = whole_list_term(ip, view)
+    if X is None:
+        q = T("sm%d" % next(ip.bound), "Int")
+        sample = view.get(q)
+        if not isinstance(sample, Num):
+            raise U("sum over a symbolic sequence of non-numbers")
+        X = materialise(ip, st, view, sv_lst_sort(ip, sample))
+    if ip.reg.lst_elem[X.sort] not in ("Int", "Real"):
+        raise U("sum over a list of " + X.sort)
+    f = declare_lsum(ip.reg, X.sort)
+    total = T("(%s %s %s)" % (f, X.s, ip.reg.l_len(X).s), ip.reg.lst_elem[X.sort])
+    return Num(ADD(start, total))
+
+
+def sp_lsum(ip, st, pos, kws):
+    """lsum(xs, n): xs[0] + ... + xs[n-1] (reference function: a recursive definition over the mathematical numbers)"""
+    from .speclib import lst_term
+    X = lst_term(ip, st, pos[0])
+    f = declare_lsum(ip.reg, X.sort)
+    return Num(T("(%s %s %s)" % (f, X.s, ip.num(pos[1]).s), ip.reg.lst_elem[X.sort]))
